@@ -529,6 +529,14 @@ func genC03(tier string, seed uint64, emit func(string)) {
 			emit(fmt.Sprintf("stallw %s %d %d", store, stalled, 1+r.Intn(40)))
 		}
 	}
+	// several connections at the same time, composed commands next to plain reads and writes: every request is answered
+	nconc := 3
+	if tier == "thorough" {
+		nconc = 60
+	}
+	for i := 0; i < nconc; i++ {
+		emit(fmt.Sprintf("conc3 %d %d %d", 3+r.Intn(6), 200+r.Intn(400), r.U64()%1000000))
+	}
 	n := 700
 	if tier == "thorough" {
 		n = 40000
@@ -716,6 +724,36 @@ func genC04(tier string, seed uint64, emit func(string)) {
 	for _, cfg := range []string{"-", "memo"} {
 		for _, l := range composedShapeCases(cfg, true) {
 			emit(l)
+		}
+	}
+	// a reply that cannot be serialised (an absent element, a nil array, a nil message) behind several KiB of elements that
+	// can: nothing of it may reach the client (a reply is written whole or not at all), and what follows is framed
+	{
+		big := hx(bytes.Repeat([]byte{'x'}, 3000))
+		for _, bad := range []string{"z", "Z", "a2 b:61 z"} {
+			for _, n := range []int{1, 2, 3, 6} {
+				var els []string
+				for i := 0; i < n; i++ {
+					els = append(els, "b:"+big)
+				}
+				direct := fmt.Sprintf("r a%d %s %s b:7a", n+2, strings.Join(els, " "), bad)
+				for _, cmd := range [][]string{{"LRANGE", "l", "0", "-1"}, {"SMEMBERS", "s"}, {"HGETALL", "h"}, {"HKEYS", "h"}, {"ZRANGE", "z", "0", "-1"}, {"ZREVRANGE", "z", "0", "-1"}, {"KEYS", "*"}} {
+					stream := append(append(reqS("PING"), reqS(cmd...)...), reqS("PING")...)
+					emit(serveLine("-", [][]byte{stream}, direct, "", ""))
+				}
+				// element by element (MGET / HMGET ask the handler once per key)
+				var calls []string
+				keys := []string{"MGET"}
+				for i := 0; i < n; i++ {
+					calls = append(calls, "r b:"+big)
+					keys = append(keys, fmt.Sprintf("k%d", i))
+				}
+				calls = append(calls, "r "+bad, "r b:7a")
+				keys = append(keys, "bad", "z")
+				emit(serveLine("-", [][]byte{append(append(reqS("PING"), reqS(keys...)...), reqS("PING")...)}, strings.Join(calls, " ; "), "", ""))
+				keys[0] = "HMGET"
+				emit(serveLine("-", [][]byte{append(append(reqS("PING"), reqS(append([]string{"HMGET", "h"}, keys[1:]...)...)...), reqS("PING")...)}, strings.Join(calls, " ; "), "", ""))
+			}
 		}
 	}
 	forged := append([]string{"foo\r\n+OK\r\n", "x\r\n:1\r\n", "k\r\n$-1\r\n", "\r", "\n", "a\rb", "-ERR\r\n"}, utf8Traps...)
